@@ -82,7 +82,7 @@ def run(tier):
         strict(ck, "read-mutations", "fv-total", ["c01", "mutate", "--sessions", side, "--muts", muts, "--drive-every", 6, "--out", os.path.join(wd, "e.ndjson")])
     seeds = [vlib.seed() + i for i in range(2 if q else 10)]
     for s in seeds:
-        strict(ck, "api-drive:%d" % s, "fv-total", ["c02", "corpus", "--seed", s, "--mutations", 24 if q else 80, "--field-stride", 5 if q else 1, "--out", os.path.join(wd, "f.ndjson")])
+        strict(ck, "api-drive:%d" % s, "fv-total", ["c02", "corpus", "--seed", s, "--mutations", 24 if q else 80, "--field-stride", 18 if q else 3, "--out", os.path.join(wd, "f.ndjson")])
     s0 = vlib.seed()
     strict(ck, "glyf", "fv-write", ["c09", "random", "--seed", s0, "--n", 200 if q else 1500, "--out", os.path.join(wd, "g.ndjson")])
     strict(ck, "gvar", "fv-write", ["c10", "random", "--seed", s0, "--n", 150 if q else 800, "--out", os.path.join(wd, "h.ndjson")])
